@@ -36,6 +36,10 @@ class IterErr(Exception):
     """Raised by the input iterator."""
 
 
+class IterErrB(BaseException):
+    """Raised by the input iterator; not an Exception (as SystemExit or a KeyboardInterrupt-like class would be)."""
+
+
 EXC_TYPES = {"Boom": Boom, "Boom2": Boom2, "ValueError": ValueError, "KeyError": KeyError}
 
 
@@ -101,7 +105,7 @@ class InputIter:
                 self.iter_fail = None
                 w.ev("iter_raise", self.c, self.i)
                 w.iter_raised.setdefault(self.c, []).append(self.i)
-                raise IterErr(self.c, self.i)
+                raise (IterErrB if self.w.case["calls"][self.c].get("iter_fail_base") else IterErr)(self.c, self.i)
             if self.i >= self.n:
                 raise StopIteration
             i = self.i; self.i += 1
